@@ -108,7 +108,9 @@ def check(ctx: Ctx) -> str:
     ctx.rule("R1", "is_safe_attribute = not (name starts with '_' or is_internal_attribute(obj, name)); is_internal_attribute covers function/method/type/code/traceback/frame/generator/coroutine/async generator objects and dunder names")
     isa = repo.func("sandbox:SandboxedEnvironment.is_safe_attribute")
     rets = astq.returns(isa.node)
-    ok = len(rets) == 1 and _is_safe_formula(rets[0].value)
+    # truth table of the whole body, however it is split into early returns / nested tests
+    tb_ = astq.bool_table(isa.node, ["attr.startswith('_')", "is_internal_attribute(obj, attr)"])
+    ok = bool(rets) and all(v == (not (u or i)) for (u, i), v in tb_.items())
     ctx.check(ok, "is_safe_attribute:formula", "sandbox:SandboxedEnvironment.is_safe_attribute", "formula", f"is_safe_attribute returns `{ast.unparse(rets[0].value) if rets else None}`; it must be false whenever attr starts with '_' or is_internal_attribute(obj, attr)", isa.loc(),
               detail={"returns": ast.unparse(rets[0].value) if rets else None})
     iia = repo.func("sandbox:is_internal_attribute")
